@@ -165,6 +165,61 @@ __CPROVER_requires(BD_FRESH(self) && 0 <= k && k <= 24 && (uint64_t)k <= 8 * gho
 __CPROVER_ensures(ghost_bit < (uint32_t)k ==> ((__CPROVER_return_value >> ghost_bit) & 1) == BD_BIT(self, self->bit_offset_ + ghost_bit))
 __CPROVER_assigns();
 
+/* ------------------------------------------------------------------ DecoderBuffer byte blocks and bit mode */
+bool DecoderBuffer_DecodeBytes(struct DecoderBuffer *self, void *out_data, size_t size_to_decode)
+__CPROVER_requires(DB_FRESH(self) && size_to_decode <= ((size_t)1 << 40) && __CPROVER_is_fresh(out_data, size_to_decode))
+__CPROVER_ensures(__CPROVER_return_value == (__CPROVER_old(self->pos_) + (int64_t)size_to_decode <= self->data_size_))
+__CPROVER_ensures(__CPROVER_return_value ==> self->pos_ == __CPROVER_old(self->pos_) + (int64_t)size_to_decode)
+__CPROVER_ensures(!__CPROVER_return_value ==> self->pos_ == __CPROVER_old(self->pos_))
+__CPROVER_ensures((__CPROVER_return_value && ghost_len < size_to_decode) ==> ((const char *)out_data)[ghost_len] == self->data_[__CPROVER_old(self->pos_) + (int64_t)ghost_len])
+__CPROVER_ensures(DB_INV(self))
+__CPROVER_assigns(self->pos_, __CPROVER_object_whole(out_data));
+bool DecoderBuffer_PeekBytes(struct DecoderBuffer *self, void *out_data, size_t size_to_peek)
+__CPROVER_requires(DB_FRESH(self) && size_to_peek <= ((size_t)1 << 40) && __CPROVER_is_fresh(out_data, size_to_peek))
+__CPROVER_ensures(__CPROVER_return_value == (self->pos_ + (int64_t)size_to_peek <= self->data_size_))
+__CPROVER_ensures((__CPROVER_return_value && ghost_len < size_to_peek) ==> ((const char *)out_data)[ghost_len] == self->data_[self->pos_ + (int64_t)ghost_len])
+__CPROVER_assigns(__CPROVER_object_whole(out_data));
+bool DecoderBuffer_StartBitDecoding(struct DecoderBuffer *self, bool decode_size, uint64_t *out_size)
+__CPROVER_requires(DB_FRESH(self) && __CPROVER_is_fresh(out_size, 8))
+__CPROVER_ensures(DB_INV(self) && self->pos_ >= __CPROVER_old(self->pos_) && self->pos_ - __CPROVER_old(self->pos_) <= (decode_size ? 10 : 0))
+__CPROVER_ensures(!decode_size ==> (__CPROVER_return_value && *out_size == __CPROVER_old(*out_size)))
+__CPROVER_ensures(__CPROVER_return_value ==> (self->bit_mode_ && self->bit_decoder_.bit_offset_ == 0 && \
+    self->bit_decoder_.bit_buffer_ == (const uint8_t *)(self->data_ + self->pos_) && self->bit_decoder_.bit_buffer_end_ == (const uint8_t *)(self->data_ + self->data_size_)))
+__CPROVER_ensures(!__CPROVER_return_value ==> self->bit_mode_ == __CPROVER_old(self->bit_mode_))
+__CPROVER_assigns(self->pos_, *out_size, self->bit_mode_, self->bit_decoder_);
+void DecoderBuffer_EndBitDecoding(struct DecoderBuffer *self)
+__CPROVER_requires(DB_FRESH(self) && self->bit_decoder_.bit_offset_ <= 8 * (size_t)(self->data_size_ - self->pos_))
+__CPROVER_ensures(!self->bit_mode_ && self->pos_ == __CPROVER_old(self->pos_) + (int64_t)((self->bit_decoder_.bit_offset_ + 7) / 8) && DB_INV(self))
+__CPROVER_assigns(self->pos_, self->bit_mode_);
+bool DecoderBuffer_DecodeLeastSignificantBits32(struct DecoderBuffer *self, uint32_t nbits, uint32_t *out_value)
+__CPROVER_requires(__CPROVER_is_fresh(self, sizeof(struct DecoderBuffer)) && BD_STATE(&self->bit_decoder_) && __CPROVER_is_fresh(out_value, 4))
+__CPROVER_ensures(__CPROVER_return_value == (self->bit_mode_ && nbits <= 32))
+__CPROVER_ensures(!__CPROVER_return_value ==> (*out_value == __CPROVER_old(*out_value) && self->bit_decoder_.bit_offset_ == __CPROVER_old(self->bit_decoder_.bit_offset_)))
+__CPROVER_ensures((__CPROVER_return_value && ghost_bit < nbits) ==> ((*out_value >> ghost_bit) & 1) == BD_BIT(&self->bit_decoder_, __CPROVER_old(self->bit_decoder_.bit_offset_) + ghost_bit))
+__CPROVER_ensures((__CPROVER_return_value && ghost_bit >= nbits && ghost_bit < 32) ==> ((*out_value >> ghost_bit) & 1) == 0)
+__CPROVER_assigns(self->bit_decoder_.bit_offset_, *out_value);
+
+/* ------------------------------------------------------------------ EncoderBuffer (byte mode) over the vector model */
+#define EB_CAPMAX 64
+#define EB_FRESH(e) (__CPROVER_is_fresh(e, sizeof(struct EncoderBuffer)) && (e)->buffer_.cap <= EB_CAPMAX && (e)->buffer_.size <= (e)->buffer_.cap && \
+                     __CPROVER_is_fresh((e)->buffer_.data, (e)->buffer_.cap))
+#define EB_SCALAR_CONTRACT(SFX, T) \
+  bool EncoderBuffer_Encode_##SFX(struct EncoderBuffer *self, const T *data) \
+  __CPROVER_requires(EB_FRESH(self) && self->buffer_.size + sizeof(T) <= self->buffer_.cap && __CPROVER_is_fresh(data, sizeof(T)) && ghost_len < self->buffer_.cap) \
+  __CPROVER_ensures(__CPROVER_return_value == !(self->bit_encoder_reserved_bytes_ > 0)) \
+  __CPROVER_ensures(__CPROVER_return_value ==> (self->buffer_.size == __CPROVER_old(self->buffer_.size) + sizeof(T) && VAL_##SFX(self->buffer_.data + __CPROVER_old(self->buffer_.size)) == *data)) \
+  __CPROVER_ensures(!__CPROVER_return_value ==> self->buffer_.size == __CPROVER_old(self->buffer_.size)) \
+  __CPROVER_ensures(ghost_len >= __CPROVER_old(self->buffer_.size) || self->buffer_.data[ghost_len] == __CPROVER_old(self->buffer_.data[ghost_len])) \
+  __CPROVER_assigns(self->buffer_.size, __CPROVER_object_whole(self->buffer_.data));
+EB_SCALAR_CONTRACT(u8, uint8_t)
+EB_SCALAR_CONTRACT(u16, uint16_t)
+EB_SCALAR_CONTRACT(u32, uint32_t)
+EB_SCALAR_CONTRACT(u64, uint64_t)
+EB_SCALAR_CONTRACT(i8, int8_t)
+EB_SCALAR_CONTRACT(i16, int16_t)
+EB_SCALAR_CONTRACT(i32, int32_t)
+EB_SCALAR_CONTRACT(i64, int64_t)
+
 #include "core_helpers.h"
 #ifdef VERIF_CBMC
 #include "core_slice.c" /* generated slice */
@@ -250,3 +305,71 @@ void h_enf_BitDecoder_EnsureBits(void) { GHOSTS(); struct BitDecoder *d; int k; 
 /* negative control: the ghost variables really are unconstrained (this assertion MUST fail) */
 void h_ghost_control(void) { GHOSTS(); __CPROVER_assert(ghost_k == 0 && ghost_len == 0 && ghost_bit == 0, "control.ghosts_are_zero"); }
 #endif
+
+#ifdef VERIF_CBMC
+void h_enf_DecoderBuffer_DecodeBytes(void) { GHOSTS(); struct DecoderBuffer *b; void *o; size_t n; DecoderBuffer_DecodeBytes(b, o, n); HARNESS_END(); }
+void h_enf_DecoderBuffer_PeekBytes(void) { GHOSTS(); struct DecoderBuffer *b; void *o; size_t n; DecoderBuffer_PeekBytes(b, o, n); HARNESS_END(); }
+void h_enf_DecoderBuffer_StartBitDecoding(void) { GHOSTS(); struct DecoderBuffer *b; bool ds; uint64_t *o; DecoderBuffer_StartBitDecoding(b, ds, o); HARNESS_END(); }
+void h_enf_DecoderBuffer_EndBitDecoding(void) { GHOSTS(); struct DecoderBuffer *b; DecoderBuffer_EndBitDecoding(b); HARNESS_END(); }
+void h_enf_DecoderBuffer_DecodeLeastSignificantBits32(void) { GHOSTS(); struct DecoderBuffer *b; uint32_t n; uint32_t *o; DecoderBuffer_DecodeLeastSignificantBits32(b, n, o); HARNESS_END(); }
+#endif
+
+/* bits.rt: PutBits(value, nbits) at bit offset o, then GetBits(nbits) at the same offset returns value & mask(nbits);
+ * every bit of the 12-byte window outside [o, o+nbits) is unchanged (frame).  Bodies inlined, loops <= 32. */
+void h_bits_rt(void) {
+  NONDET(uint32_t, value); NONDET(int32_t, nbits); NONDET(uint32_t, o); NONDET_ARR(uint8_t, init, 12); NONDET(uint32_t, g);
+  ASSUME(nbits >= 0 && nbits <= 32 && o < 64 && g < 96);
+  char store[12]; for (int i = 0; i < 12; ++i) store[i] = (char)init[i];
+  struct BitEncoder e; e.bit_buffer_ = store; e.bit_offset_ = o;
+  BitEncoder_PutBits(&e, value, nbits);
+  ASSERT(e.bit_offset_ == (size_t)o + (size_t)nbits, "bits.rt.encoder_offset");
+  int before = (init[g >> 3] >> (g & 7)) & 1, after = (((uint8_t)store[g >> 3]) >> (g & 7)) & 1;
+  ASSERT((g >= o && g < o + (uint32_t)nbits) || before == after, "bits.rt.frame");
+  struct BitDecoder d; d.bit_buffer_ = (const uint8_t *)store; d.bit_buffer_end_ = (const uint8_t *)store + 12; d.bit_offset_ = o;
+  uint32_t out = 0xdeadbeef; bool ok = BitDecoder_GetBits(&d, (uint32_t)nbits, &out);
+  uint32_t mask = nbits == 32 ? 0xffffffffu : ((1u << nbits) - 1u);
+  ASSERT(ok && out == (value & mask), "bits.rt.value");
+  ASSERT(d.bit_offset_ == e.bit_offset_, "bits.rt.decoder_offset");
+  HARNESS_END();
+}
+
+#ifdef VERIF_CBMC
+#define H_ENF_EB(SFX, T) void h_enf_EncoderBuffer_Encode_##SFX(void) { GHOSTS(); struct EncoderBuffer *e; const T *d; EncoderBuffer_Encode_##SFX(e, d); HARNESS_END(); }
+H_ENF_EB(u8, uint8_t) H_ENF_EB(u16, uint16_t) H_ENF_EB(u32, uint32_t) H_ENF_EB(u64, uint64_t) H_ENF_EB(i8, int8_t) H_ENF_EB(i16, int16_t) H_ENF_EB(i32, int32_t) H_ENF_EB(i64, int64_t)
+#endif
+
+/* bitseq.rt (BOUNDED stand-in: prefix <= 4 bytes, <= 64 payload bits, two writes): a bit sequence written between
+ * StartBitEncoding/EndBitEncoding (with or without stored size) is found by StartBitDecoding, reads back exactly, the
+ * stored size is the payload byte count, and EndBitDecoding leaves the reader at the end of what the writer produced. */
+#ifndef BITSEQ_PREFIX
+#define BITSEQ_PREFIX 3
+#endif
+#ifndef BITSEQ_N2MAX
+#define BITSEQ_N2MAX 32
+#endif
+void h_bitseq_rt(void) {
+  NONDET(uint32_t, prefix); NONDET(int64_t, required_bits); NONDET(bool, with_size); NONDET(uint32_t, v1); NONDET(uint32_t, v2); NONDET(int32_t, n1); NONDET(int32_t, n2);
+  NONDET_ARR(uint8_t, junk, 40); NONDET(uint16_t, version);
+  ASSUME(prefix == BITSEQ_PREFIX && required_bits >= 1 && required_bits <= 64 && n1 >= 0 && n1 <= 32 && n2 >= 0 && n2 <= BITSEQ_N2MAX && n1 + n2 <= required_bits);
+  ASSUME(version == DRACO_BITSTREAM_VERSION(2, 2) || version == DRACO_BITSTREAM_VERSION(2, 3));
+  char store[40]; for (int i = 0; i < 40; ++i) store[i] = (char)junk[i];
+  struct EncoderBuffer eb; eb.buffer_.data = store; eb.buffer_.size = prefix; eb.buffer_.cap = 40; eb.bit_encoder_ = NULL; eb.bit_encoder_reserved_bytes_ = 0; eb.encode_bit_sequence_size_ = false;
+  ASSERT(EncoderBuffer_StartBitEncoding(&eb, required_bits, with_size), "bitseq.rt.start_ok");
+  uint8_t probe = 7; ASSERT(!EncoderBuffer_Encode_u8(&eb, &probe), "bitseq.rt.byte_write_refused_in_bit_mode");
+  ASSERT(EncoderBuffer_EncodeLeastSignificantBits32(&eb, n1, v1) && EncoderBuffer_EncodeLeastSignificantBits32(&eb, n2, v2), "bitseq.rt.put_ok");
+  EncoderBuffer_EndBitEncoding(&eb);
+  size_t payload = ((size_t)(n1 + n2) + 7) / 8;
+  ASSERT(eb.buffer_.size == prefix + (with_size ? 1 : 0) + payload, "bitseq.rt.produced_length");
+  ASSERT(!EncoderBuffer_bit_encoder_active(&eb), "bitseq.rt.back_in_byte_mode");
+  for (int i = 0; i < 4; ++i) ASSERT((uint32_t)i >= prefix || (uint8_t)store[i] == junk[i], "bitseq.rt.prefix_untouched");
+  struct DecoderBuffer db; db.data_ = store; db.data_size_ = (int64_t)eb.buffer_.size; db.pos_ = prefix; db.bit_mode_ = false; db.bitstream_version_ = version;
+  db.bit_decoder_.bit_buffer_ = NULL; db.bit_decoder_.bit_buffer_end_ = NULL; db.bit_decoder_.bit_offset_ = 0;
+  uint64_t sz = 12345; ASSERT(DecoderBuffer_StartBitDecoding(&db, with_size, &sz), "bitseq.rt.start_decoding_ok");
+  ASSERT(!with_size || sz == payload, "bitseq.rt.stored_size");
+  uint32_t o1 = 1, o2 = 2;
+  ASSERT(DecoderBuffer_DecodeLeastSignificantBits32(&db, (uint32_t)n1, &o1) && DecoderBuffer_DecodeLeastSignificantBits32(&db, (uint32_t)n2, &o2), "bitseq.rt.get_ok");
+  ASSERT(o1 == (n1 == 32 ? v1 : (v1 & ((1u << n1) - 1))) && o2 == (n2 == 32 ? v2 : (v2 & ((1u << n2) - 1))), "bitseq.rt.values");
+  DecoderBuffer_EndBitDecoding(&db);
+  ASSERT(db.pos_ == (int64_t)eb.buffer_.size, "bitseq.rt.consumed_eq_produced");
+  HARNESS_END();
+}
